@@ -157,6 +157,14 @@ def version_list_semantics(v) -> bool:
     env = live.get("env")
     if env is None:
         return False
+    if v["property"] == "C11":
+        atom = live.get("atom")
+        if atom is None or atom.name != "python_version" or atom.op not in ("in", "not in") or atom.reversed:
+            return False
+        if not altsem.env_is_proper_substring_of_list(env, [atom]):
+            return False
+        # under list semantics the specifier view and the atom agree
+        return altsem.atom_eval(atom, env, "list") == bool(v["detail"]["in_specifier"])
     if "text" in live and "marker" in live:
         from dep_logic.markers import _build_markers
         from packaging.markers import Marker
@@ -206,6 +214,8 @@ def reversed_in_atom(v) -> bool:
     live = v.get("_live") or {}
     env = live.get("env")
     case = v.get("case") or {}
+    if v["property"] == "C13":
+        return _f4_c13(live.get("x"), live.get("y"))
     if env is None:
         return False
     if v["property"] == "C03":
@@ -273,3 +283,42 @@ def one_child_compound(v) -> bool:
 
     u = unwrap(m)
     return found[0] > 0 and nf_defect(u) is None
+
+
+def _f4_c13(x, y) -> bool:
+    """x == y although they mean different things: explained by F4 iff a literal-on-the-left
+    in / not in atom on a string variable is involved AND the two objects evaluate alike once
+    every such atom is read in the forward direction (which is how == reads it)."""
+    import dataclasses
+    import random
+
+    from dep_logic.markers import MarkerUnion, MultiMarker
+    from dep_logic.markers.single import MarkerExpression
+
+    from . import altsem
+    from .workloads import markers as MW
+
+    if x is None or y is None:
+        return False
+    found = [0]
+
+    def fwd(m):
+        if isinstance(m, MarkerExpression):
+            if m.reversed and m.op in ("in", "not in") and m.name not in altsem.VERSION_VARS and m.name != "extra":
+                found[0] += 1
+                return MarkerExpression(m.name, m.op, m.value)
+            return m
+        if isinstance(m, (MultiMarker, MarkerUnion)):
+            z = object.__new__(type(m))
+            object.__setattr__(z, "markers", tuple(fwd(c) for c in m.markers))
+            return z
+        return m
+
+    try:
+        x2, y2 = fwd(x), fwd(y)
+    except Exception:  # noqa: BLE001
+        return False
+    if not found[0]:
+        return False
+    envs = MW.environments(random.Random(0), [x, y], 60)
+    return all(bool(x2.evaluate(dict(e))) == bool(y2.evaluate(dict(e))) for e in envs)
